@@ -113,10 +113,11 @@ def r1(ctx, cfg):
         if has_code_id:
             ok = len(attrs) >= 2 and peel(attrs[1][0]) == ("const", "str", "code_id")
             val = attrs[1][1] if len(attrs) >= 2 else ("unknown", "")
+            # (the value itself, rendered as text - not something that merely derives from it, like the new address)
             if method == "instantiate":
-                ok = ok and contains(val, lambda x: x[0] == "param" and x[2] == "code_id")
+                ok = ok and is_param(val, "code_id")
             else:
-                ok = ok and contains(val, lambda x: is_param_field(x, "msg", "new_code_id"))
+                ok = ok and is_param_field(peel(val), "msg", "new_code_id")
             ctx.ob(R, fkey, "%s-code_id-attribute" % literal, ok, "second attribute must be code_id of the message, got %s" % fmt(val)[:100],
                    fn=f, line=t2["line"], sample="(code_id, %s)" % fmt(val)[:60])
         ctx.ob(R, fkey, "%s-no-extra-attributes" % literal, len(attrs) == (2 if has_code_id else (2 if literal == "reply" else 1)) and not bulk,
